@@ -92,9 +92,18 @@ func (s EncoderConfig) apply(d *EncoderConfig) {
 }
 
 func (s EncoderConfig) newEncoder(w io.Writer) (*Encoder, error) {
+	// the empty string cannot be a term of a context
+	prefixes := make(iri.PrefixMappingList, 0, len(s.prefixes))
+
+	for _, mapping := range s.prefixes {
+		if len(mapping.Prefix) > 0 {
+			prefixes = append(prefixes, mapping)
+		}
+	}
+
 	e := &Encoder{
 		w:                json.NewEncoder(ioutil.NewJSONC1EscapingWriter(w)),
-		prefixes:         iriutil.NewUsagePrefixMapper(iri.NewPrefixManager(s.prefixes)),
+		prefixes:         iriutil.NewUsagePrefixMapper(iri.NewPrefixManager(prefixes)),
 		bnStringProvider: s.bnStringProvider,
 		builder:          rdfdescription.NewDatasetResourceListBuilder(),
 	}
